@@ -136,9 +136,11 @@ OptDef == [
                                !.off = {"PROPAGATE_ANCHORS", "ERASE_OPEN_CORNERS", "FLATTEN_COMPONENTS"}],
   dtc        |-> [NoOpt EXCEPT !.names = <<"decompose_transformed", "propagate_anchors", "erase_open_corners">>,
                                !.on = {"DECOMPOSE_TRANSFORMED_COMPONENTS", "PROPAGATE_ANCHORS",
-                                       "ERASE_OPEN_CORNERS"}],
-  debg       |-> [NoOpt EXCEPT !.names = <<"debg">>, !.debg = TRUE]
+                                       "ERASE_OPEN_CORNERS"}]
 ]
+\* --emit-lookup-debug-info / Options.compile_debg is deliberately not an option set here: the Debg table records
+\* the absolute path of every feature source file ("<dir>/features.fea:5:4"), so its bytes depend on where the
+\* presentation lives on disk, and two presentations cannot live at the same path.
 
 -----------------------------------------------------------------------------
 (* Mechanism model (what decides the bytes), transcribed from the code:    *)
